@@ -12,4 +12,6 @@ else:
     d = json.load(open(out)); os.unlink(out)
 names = sorted(f["path"] for f in d["fns"] if f["kind"] in ("Fn", "AssocFn"))
 json.dump(names, open(os.path.join(HERE, "rules", "known_fns.json"), "w"), indent=0)
+sigs = {f["path"]: [f.get("inputs"), f.get("output")] for f in d["fns"] if f["kind"] in ("Fn", "AssocFn")}
+json.dump(sigs, open(os.path.join(HERE, "rules", "known_sigs.json"), "w"), indent=0)
 print(len(names), "functions frozen")
